@@ -97,15 +97,22 @@ class FakeTime:
 class Driver:
     """One real PolicyDirectoryMonitor on a private directory; the store is a plain dict."""
 
-    def __init__(self, ctx, tag):
+    def __init__(self, ctx, tag, via_symlink=False):
+        """via_symlink: the monitor is given a symbolic link to the policy directory."""
         logging.disable(logging.CRITICAL)
         from kmip.services.server import monitor
         from kmip.core import policy
         self.monitor_mod = monitor
         self.policy_mod = policy
         monitor.time = FakeTime()
-        self.dir = str(ctx.work / ('dir_' + tag))
-        os.makedirs(self.dir)
+        self.real_dir = str(ctx.work / ('dir_' + tag))
+        os.makedirs(self.real_dir)
+        self.targets = self.real_dir + '_targets'
+        os.makedirs(self.targets)
+        self.dir = self.real_dir
+        if via_symlink:
+            self.dir = str(ctx.work / ('link_' + tag))
+            os.symlink(self.real_dir, self.dir)
         self.ids = Ids()
         self.parse_cache = {}
         self.store = {}
@@ -120,24 +127,46 @@ class Driver:
         return FILES.index(os.path.basename(path))
 
     # -- directory
-    def write(self, b, text, mtime):
-        with open(self.path(b), 'w') as f:
+    def write(self, b, text, mtime, kind='file'):
+        """Make the directory entry b a policy file with this text and mtime.  kind: what sort of entry -
+        'file' a regular file; 'symlink-out' / 'symlink-in' a symbolic link to a regular file outside / inside
+        the directory (the target's name does not end in .json); 'hardlink' a second link to a file outside.
+        os.listdir + open + os.path.getmtime see the same policy file in all four cases."""
+        self.remove(b)
+        p = self.path(b)
+        if kind == 'file':
+            target = p
+        elif kind == 'symlink-in':
+            target = os.path.join(self.real_dir, b[:-5] + '.target')
+        else:
+            target = os.path.join(self.targets, b + '.t')
+        with open(target, 'w') as f:
             f.write(text)
-        os.utime(self.path(b), (mtime, mtime))
-        self.dirstate[b] = (text, mtime)
+        if kind == 'symlink-out':
+            os.symlink(target, p)
+        elif kind == 'symlink-in':
+            os.symlink(os.path.basename(target), p)
+        elif kind == 'hardlink':
+            os.link(target, p)
+        os.utime(p, (mtime, mtime))         # follows symbolic links: the target's mtime
+        self.dirstate[b] = (text, mtime, kind)
 
     def remove(self, b):
         if b in self.dirstate:
             os.remove(self.path(b))
+            for t in (os.path.join(self.real_dir, b[:-5] + '.target'), os.path.join(self.targets, b + '.t')):
+                if os.path.lexists(t):
+                    os.remove(t)
             del self.dirstate[b]
 
     def sync_dir(self, want):
         for b in list(self.dirstate):
             if b not in want:
                 self.remove(b)
-        for b, (text, mt) in want.items():
-            if self.dirstate.get(b) != (text, mt):
-                self.write(b, text, mt)
+        for b, ent in want.items():
+            text, mt, kind = ent[0], ent[1], (ent[2] if len(ent) > 2 else 'file')
+            if self.dirstate.get(b) != (text, mt, kind):
+                self.write(b, text, mt, kind)
 
     # -- monitor
     def reset(self, store0):
@@ -306,9 +335,9 @@ def freeze(x):
 
 # ----------------------------------------------------------------------------- one observed scan
 class Explorer:
-    def __init__(self, ctx, tag):
+    def __init__(self, ctx, tag, via_symlink=False):
         self.ctx = ctx
-        self.drv = Driver(ctx, tag)
+        self.drv = Driver(ctx, tag, via_symlink)
         self.cases = {}             # canonical MScan/MInit case text -> description
         self.runs = []              # MRun / SRun texts
         self.scans = 0
@@ -445,8 +474,19 @@ CORPUS = [
     ('same-mtime-edit', [[('w', 0, 0, 'new')], [('w', 0, 1, 'same')], [('w', 0, 1, 'new')]]),
     ('older-mtime-edit', [[('w', 0, 0, 'new')], [('w', 0, 1, 'old')], []]),
     ('remove-readd-between-scans', [[('w', 0, 0, 'new')], [('rm', 0), ('w', 0, 1, 'old')], [('rm', 0)], [('w', 0, 1, 'old')]]),
+    # kinds of directory entries: what os.listdir + open read is the policy file, whatever sort of entry it is
+    ('symlink-edit-target-replace-by-file-and-back',
+     [[('w', 0, 0, 'new', 'symlink-out')], [('w', 0, 1, 'new', 'symlink-out')], [('w', 0, 0, 'new', 'file')],
+      [('w', 0, 1, 'new', 'symlink-in')], [('w', 1, 0, 'new', 'hardlink')], [('rm', 0)], [('rm', 1)]]),
+    ('file-replaced-by-symlink-same-content-same-mtime',
+     [[('w', 0, 1, 'new', 'file')], [('w', 0, 1, 'same', 'symlink-out')], [('w', 0, 0, 'new', 'symlink-out')], [('w', 1, 4, 'new', 'symlink-in')],
+      [('rm', 0)]]),
+    ('hardlink-shadows-symlink', [[('w', 0, 0, 'new', 'symlink-in')], [('w', 1, 1, 'new', 'hardlink')], [('w', 0, 4, 'new', 'symlink-in')], [('rm', 1)]]),
     ('own-stale-entry', [[('w', 0, 0, 'new')], [('w', 1, 1, 'new')], [('w', 0, 4, 'new')], [('rm', 1)], [('w', 2, 0, 'new')], [('rm', 2)], [('w', 0, 2, 'new')]]),
 ]
+
+
+ENTRY_KINDS = ['file', 'symlink-out', 'symlink-in', 'hardlink']
 
 
 def random_history(rng, depth, nfiles=len(FILES), ncontents=None):
@@ -461,7 +501,8 @@ def random_history(rng, depth, nfiles=len(FILES), ncontents=None):
                 step.append(('rm', f))
             else:
                 mode = rng.choice(['new'] * 8 + ['same', 'old'])
-                step.append(('w', f, rng.randrange(ncontents), mode))
+                kind = rng.choice(['file'] * 6 + ENTRY_KINDS)
+                step.append(('w', f, rng.randrange(ncontents), mode, kind))
         h.append(step)
     return h
 
@@ -483,7 +524,7 @@ def next_dirstate(cur, step, clock, contents=None):
                 mt = old[1] - 5 if old else 50
             else:
                 mt = clock
-            cur[b] = (contents[ev[2]], mt)
+            cur[b] = (contents[ev[2]], mt, ev[4] if len(ev) > 4 else 'file')
     return cur, clock
 
 
@@ -515,6 +556,8 @@ def run_history(ctx, ex, store0, hist, label, avoid_drop=False, contents=None, p
         d.sync_dir(nd)
         for ev in step:
             ctx.count('history.event.%s%s' % (ev[0], '.' + ev[3] if ev[0] == 'w' else ''))
+            if ev[0] == 'w':
+                ctx.count('history.entry-kind.%s' % (ev[4] if len(ev) > 4 else 'file'))
         done.append([list(e) for e in step])
         view, post, exp, ok, verdict = ex.observed_scan(spec, hdesc)
         verdicts.append(verdict)
@@ -800,9 +843,10 @@ def pr_result(r):
     return cp.lst(list(r.items()), one)
 
 
-def expected_names(doc):
-    """Names of the policies a document defines, or None when it is not a valid policy file
-    (docs/source/server.rst: object-type sections only, or 'preset'/'groups' sections)."""
+def expected_definitions(doc):
+    """Independent reading of the documented file format (docs/source/server.rst): name -> definition the file
+    gives that name (same structure as the parser's result), or None when the document is not a valid policy file.
+    Each policy is read on its own: nothing carries over from one policy of the file to the next."""
     from kmip.core import enums
 
     def ppol(x):
@@ -810,9 +854,12 @@ def expected_names(doc):
             t in enums.ObjectType.__members__ and isinstance(ops, dict) and all(
                 o in enums.Operation.__members__ and isinstance(q, str) and q in enums.Policy.__members__ for o, q in ops.items())
             for t, ops in x.items())
+
+    def conv(x):
+        return {enums.ObjectType[t]: {enums.Operation[o]: enums.Policy[q] for o, q in ops.items()} for t, ops in x.items()}
     if not isinstance(doc, dict):
         return None
-    names = []
+    out = {}
     for name, pol_ in doc.items():
         if not isinstance(pol_, dict):
             return None
@@ -824,10 +871,67 @@ def expected_names(doc):
                 return None
             if grp and not (isinstance(grp, dict) and all(ppol(g) for g in grp.values())):
                 return None
-        elif not (set(pol_) <= set(enums.ObjectType.__members__) and ppol(pol_)):
+            d = {}
+            if pre:
+                d['preset'] = conv(pre)
+            if grp:
+                d['groups'] = {g: conv(v) for g, v in grp.items()}
+            out[name] = d
+        elif set(pol_) <= set(enums.ObjectType.__members__) and ppol(pol_):
+            out[name] = {'preset': conv(pol_)}
+        else:
             return None
-        names.append(name)
-    return names
+    return out
+
+
+def expected_names(doc):
+    d = expected_definitions(doc)
+    return None if d is None else list(d)
+
+
+def parser_verdict(loaded, outcome, result):
+    """Direct oracle for one document: None, or (class, text).  loaded: what json.loads gave."""
+    want = expected_definitions(loaded)
+    if want is None and outcome == 'ok':
+        return 'parser-accepts-invalid', 'read_policy_from_file accepted a document that is not a valid policy file'
+    if want is not None and outcome == 'valueerror':
+        return 'parser-rejects-valid', 'read_policy_from_file rejected a valid policy file'
+    if want is not None and outcome == 'ok':
+        if list(result.keys()) != list(want):
+            return 'parser-wrong-names', 'read_policy_from_file returned policies %r, the file defines %r' % (list(result.keys()), list(want))
+        for n in want:
+            if result[n] != want[n]:
+                return ('parser-wrong-definition',
+                        "read_policy_from_file gives policy '%s' the definition %r, the file says %r" % (n, result[n], want[n]))
+    return None
+
+
+# policies of one file that differ in the sections they have, in every order
+def section_kinds():
+    def pp(i):
+        perms = ['ALLOW_ALL', 'ALLOW_OWNER', 'DISALLOW_ALL']
+        return {'SYMMETRIC_KEY': {'GET': perms[i % 3]}, ['CERTIFICATE', 'SECRET_DATA', 'PUBLIC_KEY'][i % 3]: {'LOCATE': perms[(i + 1) % 3]}}
+    return {
+        'preset': lambda i: {'preset': pp(i)},
+        'groups': lambda i: {'groups': {'g%d' % i: pp(i + 1)}},
+        'both': lambda i: {'preset': pp(i + 2), 'groups': {'h%d' % i: pp(i)}},
+        'flat': lambda i: pp(i + 1),
+        'empty': lambda i: {},
+        'falsy-sections': lambda i: {'preset': None, 'groups': {}},
+        'preset+falsy-groups': lambda i: {'preset': pp(i), 'groups': None},
+    }
+
+
+def multi_policy_docs():
+    import itertools
+    kinds = section_kinds()
+    for r in (2, 3):
+        for combo in itertools.permutations(kinds, r):
+            if r == 3 and ('empty' in combo and 'falsy-sections' in combo):
+                continue
+            yield '+'.join(combo), {'n%d' % i: kinds[k](i) for i, k in enumerate(combo)}
+    for k in kinds:     # the same kind twice
+        yield k + '+' + k, {'n0': kinds[k](0), 'n1': kinds[k](1)}
 
 
 def parser_run(ctx, quick):
@@ -863,16 +967,9 @@ def parser_run(ctx, quick):
                           'read_policy_from_file raised %s (the monitor catches only ValueError) ' % out[1])
         # independent reading of the documented file format
         if blob is not None and out[0] in ('ok', 'valueerror'):
-            want = expected_names(blob[1])
-            if want is None and out[0] == 'ok':
-                ctx.violation({'class': 'parser-accepts-invalid'}, {'file_bytes': raw.decode('latin-1'), 'label': label, 'result': repr(r)[:500]},
-                              'read_policy_from_file accepted a document that is not a valid policy file')
-            elif want is not None and out[0] == 'valueerror':
-                ctx.violation({'class': 'parser-rejects-valid'}, {'file_bytes': raw.decode('latin-1'), 'label': label},
-                              'read_policy_from_file rejected a valid policy file')
-            elif want is not None and list(r.keys()) != want:
-                ctx.violation({'class': 'parser-wrong-names'}, {'file_bytes': raw.decode('latin-1'), 'label': label, 'result': repr(r)[:500]},
-                              'read_policy_from_file returned policies %r, the file defines %r' % (list(r.keys()), want))
+            v = parser_verdict(blob[1], out[0], out[1])
+            if v:
+                ctx.violation({'class': v[0]}, {'file_bytes': raw.decode('latin-1'), 'label': label, 'result': repr(out[1])[:600]}, v[1])
         if out[0] == 'ok':
             okshape = isinstance(r, dict) and all(
                 isinstance(v, dict) and set(v) <= {'preset', 'groups'} for v in r.values())
@@ -898,6 +995,8 @@ def parser_run(ctx, quick):
         feed(json.dumps(doc).encode(), 'valid:%d' % i)
         for kind, path, m in mutations(doc):
             feed(json.dumps(m).encode(), 'mut-%s:%d:%s' % (kind, i, '/'.join(path)))
+    for label, doc in multi_policy_docs():
+        feed(json.dumps(doc).encode(), 'multi:' + label)
     # text level
     text = json.dumps(VALID_DOCS[6])
     for cut in range(0, len(text), 1 if not quick else 3):
@@ -954,6 +1053,15 @@ def run(ctx):
     for label, hist in CORPUS:
         for s0 in STORES[:2]:
             run_history(ctx, ex, s0, hist, 'corpus:' + label)
+    exl = Explorer(ctx, 'l', via_symlink=True)      # the monitor is given a symbolic link to the policy directory
+    exl.sruns = []
+    for label, hist in CORPUS:
+        run_history(ctx, exl, STORES[0], hist, 'corpus-via-symlinked-directory:' + label, avoid_drop=not source_purges_shadowed())
+    for c, v in exl.cases.items():
+        ex.cases.setdefault(c, v)
+    ex.runs += exl.runs
+    ex.sruns += exl.sruns
+    ex.scans += exl.scans
     rng = ctx.subrng('histories')
     purged = source_purges_shadowed()
     for i in range(40 if quick else 400):
@@ -977,7 +1085,11 @@ def run(ctx):
         ctx.disagreement('spec_oracle', {'history': ex.sruns[i][1], 'case': sruns[i][:1500]})
     ctx.sample({'monitor_step_case': cases[len(cases) // 2][:600]})
     ctx.sample({'monitor_run_case': runs[-1][:600]})
-    shutil.rmtree(ex.drv.dir, ignore_errors=True)
+    for d_ in (ex.drv, exl.drv):
+        if d_.dir != d_.real_dir:
+            os.remove(d_.dir)
+        shutil.rmtree(d_.real_dir, ignore_errors=True)
+        shutil.rmtree(d_.targets, ignore_errors=True)
     parser_run(ctx, quick)
 
 
@@ -1000,16 +1112,23 @@ def replay(ctx, payload):
         p = str(ctx.work / 'replay.json')
         with open(p, 'wb') as f:
             f.write(inp['file_bytes'].encode('latin-1'))
+        raw = inp['file_bytes'].encode('latin-1')
+        try:
+            loaded = ('some', json.loads(raw.decode('utf-8')))
+        except Exception:       # noqa
+            loaded = None
         try:
             r = policy.read_policy_from_file(p)
             print('read_policy_from_file returned', repr(r)[:300])
-            return 1 if payload.get('signature', {}).get('class') == 'parser-accepts-invalid' else 0
+            v = ('parser-accepts-invalid', 'accepted a file that is not JSON text') if loaded is None else parser_verdict(loaded[1], 'ok', r)
         except ValueError as e:
             print('ValueError:', e)
-            return 0
+            v = None if loaded is None else parser_verdict(loaded[1], 'valueerror', None)
         except Exception as e:      # noqa
             print('still raises', type(e).__name__, e)
             return 1
+        print('FAILS: %s' % v[1] if v else 'as the file format says')
+        return 1 if v else 0
     h = inp.get('history')
     if h is None:
         cands = payload.get('first_disagreeing_cases') or []
